@@ -154,8 +154,24 @@ fn main() {
                         for l in &ss.prefix {
                             run(&mut out, &mut scen, l);
                         }
+                        // blocks never go back: an `env` line that does not move to a later block is not applied
+                        let height_of = |l: &str| -> Option<u64> {
+                            if !l.starts_with("env ") {
+                                return None;
+                            }
+                            l.split_whitespace().find_map(|t| t.strip_prefix("height=")).and_then(|h| h.parse().ok())
+                        };
+                        let mut cur_h: u64 = ss.prefix.iter().filter_map(|l| height_of(l)).max().unwrap_or(0);
                         for (pos, &ix) in d.iter().enumerate() {
-                            if run(&mut out, &mut scen, &ss.alphabet[ix]) && pos < depth - 1 {
+                            let op = &ss.alphabet[ix];
+                            if let Some(h) = height_of(op) {
+                                if h <= cur_h {
+                                    cut = pos;
+                                    break;
+                                }
+                                cur_h = h;
+                            }
+                            if run(&mut out, &mut scen, op) && pos < depth - 1 {
                                 cut = pos;
                                 break;
                             }
